@@ -33,6 +33,8 @@ struct St {
     lens: BTreeMap<usize, usize>,
     skipped_known: usize,
     samples_emitted: usize,
+    struct_cases: usize,
+    max_struct_cases: usize,
 }
 
 fn enc_key(e: &str) -> String {
@@ -112,6 +114,9 @@ fn one_pcm(out: &mut Out, st: &mut St, rng: &mut Rng, known: &Known, cfg: &Cfg, 
             }
         }
     }
+    if st.struct_cases < st.max_struct_cases && (st.encodes % 3 == 0 || frames < 20) {
+        for line in encoder_struct_cases(&bytes, 3, 2500) { st.struct_cases += 1; out.case(line); }
+    }
     if st.samples_emitted < 3 && bytes.len() < 600 && frames > 3 {
         st.samples_emitted += 1;
         println!("{}", obj(&[("t", esc("sample")), ("cfg", cfg.json()), ("kind", esc(kind)), ("pcm", ints(&pcm)), ("file", esc(&hex(&bytes)))]));
@@ -124,7 +129,7 @@ fn main() {
     let thorough = env_tier_thorough();
     let mut out = Out::new();
     let mut rng = Rng::new(seed, 0xC01);
-    let mut st = St { encodes: 0, decodes: 0, samples: 0, by_writer: Default::default(), by_bps: Default::default(), by_ch: Default::default(), by_rate_class: Default::default(), by_bs_class: Default::default(), by_lpc: Default::default(), by_po: Default::default(), by_kind: Default::default(), lens: Default::default(), skipped_known: 0, samples_emitted: 0 };
+    let mut st = St { encodes: 0, decodes: 0, samples: 0, by_writer: Default::default(), by_bps: Default::default(), by_ch: Default::default(), by_rate_class: Default::default(), by_bs_class: Default::default(), by_lpc: Default::default(), by_po: Default::default(), by_kind: Default::default(), lens: Default::default(), skipped_known: 0, samples_emitted: 0, struct_cases: 0, max_struct_cases: scale(if thorough { 6000 } else { 700 }) };
     let kinds = all_kinds();
     let known = probe_known();
     clear_panic_loc();
@@ -234,7 +239,7 @@ fn main() {
     }
 
     // ---- (C) random configurations
-    let nrand = scale(if thorough { 6000 } else { 500 });
+    let nrand = scale(if thorough { 40000 } else { 500 });
     for i in 0..nrand {
         let cfg = random_cfg(&mut rng, &known);
         let kind = kinds[i % kinds.len()];
@@ -258,7 +263,7 @@ fn main() {
             ("skipped_known_writer_defects", st.skipped_known.to_string()), ("known_writer_defects_present", esc(&format!("{:?}", known))),
             ("by_writer", m(&st.by_writer)), ("by_bps", mi(&st.by_bps)), ("by_ch", format!("{{{}}}", st.by_ch.iter().map(|(k, v)| format!("\"{}\":{}", k, v)).collect::<Vec<_>>().join(","))),
             ("by_rate_class", m(&st.by_rate_class)), ("by_bs_class", m(&st.by_bs_class)), ("by_lpc", m(&st.by_lpc)), ("by_po", mi(&st.by_po)), ("by_kind", m(&st.by_kind)),
-            ("lengths_1_to_70_hit", st.lens.keys().filter(|k| **k <= 70).count().to_string()), ("viols", out.viols.to_string()), ("viol_keys", out.counts()),
+            ("struct_cases_emitted", st.struct_cases.to_string()), ("lengths_1_to_70_hit", st.lens.keys().filter(|k| **k <= 70).count().to_string()), ("viols", out.viols.to_string()), ("viol_keys", out.counts()),
         ])
     );
 }
